@@ -3,7 +3,7 @@ use crate::{
     inc_bimap::IncBiMap,
     offset::SerializeSubset,
     serialize::{SerializeErrorFlags, Serializer},
-    Plan, SubsetTable,
+    Plan, Serialize, SubsetTable,
 };
 use fnv::FnvHashMap;
 use write_fonts::{
@@ -474,6 +474,19 @@ impl<'a> SubsetTable<'a> for DeltaSetIndexMap<'a> {
     fn subset(
         &self,
         _plan: &Plan,
+        s: &mut Serializer,
+        index_map_subset_plan: &'a DeltaSetIndexMapSerializePlan<'a>,
+    ) -> Result<(), SerializeErrorFlags> {
+        Self::serialize(s, index_map_subset_plan)
+    }
+}
+
+// The output is fully described by the plan, so this also serves a source
+// table that has no map, e.g. an HVAR with an implicit advance width mapping.
+impl<'a> Serialize<'a> for DeltaSetIndexMap<'_> {
+    type Args = &'a DeltaSetIndexMapSerializePlan<'a>;
+
+    fn serialize(
         s: &mut Serializer,
         index_map_subset_plan: &'a DeltaSetIndexMapSerializePlan<'a>,
     ) -> Result<(), SerializeErrorFlags> {
